@@ -270,3 +270,41 @@ Definition msgq_read (st : sstate) (len : N) : sstate * os_rres :=
        end.
 Definition msgq_write (st : sstate) (bs : list N) : sstate * os_wres :=
   ({| s_data := s_data st; s_pos := s_pos st; s_out := s_out st ++ bs ++ [MSG_END] |}, OsCount (nlen bs)).
+
+(* ------------------------------------------------------------------ scripted descriptors
+   A REAL descriptor whose read(2) / write(2) calls are intercepted by the harness (harness/src/fdscript.rs:
+   the executable's own `read` / `write` symbols take precedence over libc.so's for vm-memory's and std's
+   call sites).  A script - a list of per-call behaviours of ANY length - is attached to the descriptor;
+   every call on it consumes one behaviour:
+     FFull     the real system call with the caller's count
+     FShort k  the real system call with the count clamped to k (the data really moves)
+     FZero     returns 0 without a system call
+     FEintr    errno = EINTR, returns -1 without a system call
+     FErr      errno = some other error (EIO, EAGAIN, EBADF, ENOSPC, EPIPE, ECONNRESET), -1, no system call
+   and when the script is exhausted the real system call is made.  [f_calls] counts the calls the descriptor
+   received.  This is an instance of the OS oracle of Section RawFd, built on top of any underlying oracle
+   (regular file, byte queue). *)
+Inductive fbeh := FFull | FShort (k : N) | FZero | FEintr | FErr.
+Record sfd := { f_st : sstate; f_script : list fbeh; f_calls : N }.
+Section Scripted.
+  Variable os_read : sstate -> N -> sstate * os_rres.
+  Variable os_write : sstate -> list N -> sstate * os_wres.
+  Definition scr_next (f : sfd) (st : sstate) : sfd :=
+    {| f_st := st; f_script := tl (f_script f); f_calls := f_calls f + 1 |}.
+  Definition scr_read (f : sfd) (len : N) : sfd * os_rres :=
+    match f_script f with
+    | [] | FFull :: _ => let '(st', r) := os_read (f_st f) len in (scr_next f st', r)
+    | FShort k :: _ => let '(st', r) := os_read (f_st f) (N.min k len) in (scr_next f st', r)
+    | FZero :: _ => (scr_next f (f_st f), OsData [])
+    | FEintr :: _ => (scr_next f (f_st f), OsRErr EInterrupted)
+    | FErr :: _ => (scr_next f (f_st f), OsRErr EOther)
+    end.
+  Definition scr_write (f : sfd) (bs : list N) : sfd * os_wres :=
+    match f_script f with
+    | [] | FFull :: _ => let '(st', r) := os_write (f_st f) bs in (scr_next f st', r)
+    | FShort k :: _ => let '(st', r) := os_write (f_st f) (ntake (N.min k (nlen bs)) bs) in (scr_next f st', r)
+    | FZero :: _ => (scr_next f (f_st f), OsCount 0)
+    | FEintr :: _ => (scr_next f (f_st f), OsWErr EInterrupted)
+    | FErr :: _ => (scr_next f (f_st f), OsWErr EOther)
+    end.
+End Scripted.
